@@ -78,6 +78,7 @@ class Repo:
         if not os.path.isdir(self.src):
             raise AnchorMissing(f"source directory {self.src} not found")
         self.modules: dict[str, Module] = {}
+        self.alpha_normalised: list[str] = []  # functions whose locals were renamed back to the recorded spelling (alpha-equivalent)
         self._load()
 
     # ---------------------------------------------------------------- loading
@@ -100,6 +101,8 @@ class Repo:
                     tree = ast.parse(source, filename=path)
                 except SyntaxError as exc:  # the tree must at least parse
                     raise AnalysisError(f"cannot parse {rel}: {exc}")
+                from .alpha import normalise_module
+                self.alpha_normalised.extend(f"{name}:{q}" for q in normalise_module(name, tree))
                 _set_parents(tree)
                 mod = Module(name=name, path=path, rel=rel, source=source, tree=tree)
                 self._index_imports(mod, is_pkg=fn == "__init__.py")
